@@ -16,7 +16,7 @@ for _nm in ("error", "simple"):
 M("c05_timeout_reply_once", ["C05", "C13"], "reach_allow", tier="quick",
   desc="Server::process_blocked_timeouts, the per-connection closure: with the connection NOT in the Blocked state (e.g. the second report of a client that was blocked on two keys and has already been answered) no reply is sent - a timed-out blocking pop is answered exactly once",
   assumptions=["ConnectionState discriminants: Connected 0, Authenticated 1, Blocked 2, Closing 3 (declaration order, checked by the vacuity twin c05_timeout_reply_sanity)"],
-  fn=r"process_blocked_timeouts::\{closure#0\}$", assume_disc=[(r"ConnectionState", 2, "ne")], deny=[r"Connection::send_frame$"], must_reach=[])
+  fn=r"process_blocked_timeouts::\{closure#0\}$", assume_disc=[(r"ConnectionState", 2, "ne")], deny=[r"Connection::send_frame$"], must_reach=[], descend=True)
 M("c05_timeout_reply_sanity", ["C05", "C13"], "reach_allow", tier="quick",
   desc="vacuity twin: with the connection in the Blocked state the nil reply IS sent",
-  fn=r"process_blocked_timeouts::\{closure#0\}$", assume_disc=[(r"ConnectionState", 2)], allow=[r"."], must_reach=[r"Connection::send_frame$"])
+  fn=r"process_blocked_timeouts::\{closure#0\}$", assume_disc=[(r"ConnectionState", 2)], allow=[r"."], must_reach=[r"Connection::send_frame$"], descend=True)
